@@ -10,6 +10,8 @@ CONSTANTS
   D_RenameAfterFailedStep = FALSE
   D_NoFsync = FALSE
   M_ZeroOffsetsWritten = TRUE
+  M_TmpStartsEmpty = TRUE
+  CLen <- TokLen
   MidSaveCommits = TRUE
   CrashAction = TRUE
   DoExport = TRUE
